@@ -185,14 +185,22 @@ impl Family for Schedules {
         Box::new(PROGRAMS.iter().map(|p| json!({"program": p})))
     }
     fn run(&self, case: &Value, ctx: &mut Ctx) -> Report {
-        let mut rep = Report::default();
         let name = case["program"].as_str().unwrap();
         let prog = build(name);
-        let text = print::print_main(&prog);
+        explore_program(name, &prog, ctx, 20_000)
+    }
+}
+
+/// Explore every schedule of one program on both sides (emitted Go under the Go interpreter, reference
+/// semantics) and compare the sets of terminal observations. Shared by `schedules` and `goforms`.
+pub fn explore_program(name: &str, prog: &Program, ctx: &mut Ctx, quick_cap: u64) -> Report {
+    {
+        let mut rep = Report::default();
+        let text = print::print_main(prog);
         // quick: preemption bound 2. thorough: the bound is iterated 2, 3, 4, ... and finally dropped; the
         // largest bound whose exploration of both sides completes under the cap is the one that decides
         // (a capped exploration never does), and it is reported.
-        let cap: u64 = if ctx.tier == Tier::Quick { 20_000 } else { 50_000 };
+        let cap: u64 = if ctx.tier == Tier::Quick { quick_cap } else { 50_000 };
         let bounds: Vec<Option<u32>> = if ctx.tier == Tier::Quick { vec![Some(2)] } else { vec![Some(2), Some(3), Some(4), Some(6), Some(8), None] };
         let fuel = 200_000;
         let path = ctx.scratch.single_path();
@@ -236,7 +244,7 @@ impl Family for Schedules {
         let mut capped_at: Option<Option<u32>> = None;
         let ref_points = std::cell::Cell::new(0u64);
         let mut run_ref = |prefix: &[usize]| {
-            let (r, trace, div) = sched::ref_side::run_with_schedule(&prog, fuel, prefix);
+            let (r, trace, div) = sched::ref_side::run_with_schedule(prog, fuel, prefix);
             ref_points.set(ref_points.get() + trace.len() as u64);
             let mut o = obs_of_ref(&r);
             if div {
